@@ -867,6 +867,7 @@ def session_prop(st, it, c, out):
         if ret_empty is False:
             clauses.append(("nonempty_return_means_ongoing", ong is True))
         if ev == "nokey":
+            clauses.append(("cover:key_without_value", True))
             clauses.append(("key_without_value_changes_nothing",
                             z3.And(seq_eq(buf, c["buf"]), seq_eq(typed, c["typed"])) if pend.variant == (1 if sh.get("pending") else 0) else False))
     # C02: a returned list holds at least one candidate, the preselection is inside it, the auxiliary text is the composition
@@ -958,7 +959,8 @@ def obl_session_fixed(check, max_n, max_m, max_v, budget_s=None, events=None):
     shapes.sort(key=lambda s: -(s["n"] + s["m"] + s["value"]))
     run_key_obligation(check, "fixed_session", shapes, session_prop, classify_session, describe_session, budget_s=budget_s,
                        constrain=session_constrain, maker=make_event_step, confirm=confirm_session,
-                       required_covers=["cover:backspace_empty", "cover:backspace_nonempty"])
+                       required_covers=(["cover:backspace_empty", "cover:backspace_nonempty"] if events is None or "backspace" in events else []) +
+                                       (["cover:key_without_value"] if events is None or "nokey" in events else []))
 
 
 def confirm_session(check, name, vio, classify, describe):
